@@ -136,7 +136,10 @@ def constructs():
               ("cmp", "in", qa(), ("list", [1, 0])), ("cmp", "in", qa(), ("list", [True])), ("cmp", "contains", ("list", [False, 2.0]), qa()),
               ("cmp", "in", qa(C(N("a"))), qr(C(N("ll")))), ("cmp", "contains", qr(C(N("ll"))), qa(C(N("nope")))),
               ("cmp", "in", qa(C(N("nope"))), qr(C(N("ll")))), ("cmp", "in", qa(), qr(C(N("ll")))),
-              ("cmp", "in", qa(C(N("nope"))), qa()), ("cmp", "contains", qa(), qa(C(N("nope"))))):
+              ("cmp", "in", qa(C(N("nope"))), qa()), ("cmp", "contains", qa(), qa(C(N("nope")))),
+              # substrings of more than one character, the empty string, and the whole string
+              ("cmp", "in", L("ab"), qa()), ("cmp", "contains", qa(), L("a\nb")), ("cmp", "in", L(""), qa()),
+              ("cmp", "contains", qa(), L("b")), ("cmp", "in", L("\nb"), qa()), ("cmp", "contains", L("xaby"), qa())):
         out.append(("membership", Q(A, C(F(e)))))
     # =~ with every subset of flags
     pats = ["a+", "A", "a.b", "^b", "\\w", "ab|a", "a", "a|ab", "a.*?", "a+?b?"]
